@@ -1215,14 +1215,36 @@ class Walker:
             cur, kv = r[0]
             elt = ("tup", tuple(kv))
         else:
-            r = self.ev(n.elt, cur)
-            if len(r) != 1:
-                raise AnalysisError(f"forking comprehension element at {st.frame.func.where(n)}")
-            cur, elt = r[0]
+            n0 = len(cur.conds)
+            r = [x for x in self.ev(n.elt, cur) if x[0].exit is None]
+            if len(r) == 1:
+                cur, elt = r[0]
+            else:
+                # the element is computed by branching code (a helper with several returns, looked through): one conditional value
+                elt = self._merge_forks(r, n0, 0, st.frame.func.where(n))
+                cur = r[0][0]
+                del cur.conds[n0:]
         self._havoc(cur, body, hlid, "+")
         cur.loops = loops_before
         cur.env = saved
         return [(cur, ("comp", kind, elt, tuple(gens)))]
+
+    def _merge_forks(self, rs, n0, depth, where):
+        if not rs:
+            raise AnalysisError(f"comprehension element cannot be evaluated at {where}")
+        if len(rs) == 1:
+            return rs[0][1]
+        if any(len(x[0].conds) <= n0 + depth for x in rs):
+            raise AnalysisError(f"forking comprehension element at {where}")
+        atom = rs[0][0].conds[n0 + depth].atom
+        if any(x[0].conds[n0 + depth].atom != atom for x in rs):
+            raise AnalysisError(f"forking comprehension element at {where}")
+        t = [x for x in rs if x[0].conds[n0 + depth].truth]
+        f = [x for x in rs if not x[0].conds[n0 + depth].truth]
+        if not t or not f:
+            return self._merge_forks(t or f, n0, depth + 1, where)
+        x = ("phi", atom, self._merge_forks(t, n0, depth + 1, where), self._merge_forks(f, n0, depth + 1, where))
+        return _norm_node(x) or x
 
     def e_ListComp(self, n, st):
         return self._comp(n, st, "list")
